@@ -45,6 +45,11 @@ package actionlint
 //@     at_call (*RuleExpression).checkSemantics: line == pos.Line
 //@     at_call (*RuleExpression).checkSemantics: src == s0[offset..len(s0)]
 //@     at_call (*RuleExpression).checkSemantics: (quoted ==> col == pos.Col + 1 + offset) && (!quoted ==> col == pos.Col + offset)
+// the position recorded for a placeholder (where a diagnostic about its value is reported) is the position
+// of its "${{": at that offset of the scalar - one column further for a quoted scalar - the text "${{" starts
+//@     invariant forall j :: 0 <= j && j < len(ts) ==> ts[j].pos.Line == old(pos.Line)
+//@     invariant quoted ==> (forall j :: 0 <= j && j < len(ts) ==> 0 <= ts[j].pos.Col - old(pos.Col) - 1 && ts[j].pos.Col - old(pos.Col) - 1 <= len(s0) && index(s0[ts[j].pos.Col - old(pos.Col) - 1..len(s0)], "${{") == 0)
+//@     invariant !quoted ==> (forall j :: 0 <= j && j < len(ts) ==> 0 <= ts[j].pos.Col - old(pos.Col) && ts[j].pos.Col - old(pos.Col) <= len(s0) && index(s0[ts[j].pos.Col - old(pos.Col)..len(s0)], "${{") == 0)
 
 //@ func (*RuleExpression).checkSemantics
 //@   props C07
